@@ -472,7 +472,370 @@ def check_C24(tier, replay=None):
     return vd.report()
 
 
+# =============================================================================================
+# C23 connected components
+# =============================================================================================
+def cc_vertex_maps():
+    """order-preserving renderings of the abstract vertices 1..n as other hashable, ordered values"""
+    return {
+        "int": lambda v: v,
+        "neg": lambda v: v - 10,
+        "str": lambda v: "v%02d" % v,
+        "float": lambda v: v / 2.0,
+        "tuple": lambda v: (v // 3, v % 3),
+    }
+
+
+def cc_replay_case(case):
+    import data_algebra.connected_components as ccm
+    f, g, labels = case["f"], case["g"], case["labels"]
+    for name, mp in cc_vertex_maps().items():
+        try:
+            got = ccm.connected_components([mp(v) for v in f], [mp(v) for v in g])
+        except Exception as ex:  # noqa: BLE001
+            return ("diverge", name, "raised %s: %s" % (type(ex).__name__, ex))
+        if list(got) != [mp(v) for v in labels]:
+            return ("diverge", name, {"got": list(got), "expected": [mp(v) for v in labels]})
+    return ("ok",)
+
+
+def cc_pandas_case(case):
+    """the same through the Pandas expression path: f.co_equalizer(g)"""
+    import pandas
+    from data_algebra.data_ops import descr
+    f, g, labels = case["f"], case["g"], case["labels"]
+    if len(f) == 0:
+        return ("ok",)
+    d = pandas.DataFrame({"f": f, "g": g})
+    try:
+        res = descr(d=d).extend({"c": "f.co_equalizer(g)"}).transform(d)
+    except Exception as ex:  # noqa: BLE001
+        return ("diverge", "pandas", "raised %s: %s" % (type(ex).__name__, str(ex)[:200]))
+    if [int(v) for v in res["c"].tolist()] != list(labels):
+        return ("diverge", "pandas", {"got": res["c"].tolist(), "expected": labels})
+    return ("ok",)
+
+
+def cc_both(case):
+    v = cc_replay_case(case)
+    if v[0] != "ok":
+        return v
+    return cc_pandas_case(case)
+
+
+def check_C23(tier, replay=None):
+    import multiprocessing
+    t0 = time.time()
+    vd = common.Verdicts("C23")
+    tr = TlcRun()
+    stats = collections.Counter()
+    quick = tier == "quick"
+    if replay:
+        rec = json.load(open(replay))
+        print(cc_both(rec["case"]))
+        return 1
+    inv = ["Partition", "LoopInvariant", "Final"]
+    # (1) design: the coded merging loop keeps its invariant and ends with the reference labelling
+    r = run_sm("MC_ConnComp", {"V": "<- MC_V", "MaxEdges": "= %d" % (3 if quick else 4)}, invariants=inv, emit="Emit", tr=tr,
+               what="all edge lists of <= %d edges over 4 vertices: loop invariant, final labelling" % (3 if quick else 4))
+    if r.violated:
+        vd.violation({"kind": "tlc-law", "what": "ConnComp", "violated": r.violated, "trace": r.trace[:200]})
+    lines = list(r.lines)
+    r = run_sm("MC_ConnComp", {"V": "<- MC_V7", "MaxEdges": "= 7"}, invariants=inv, emit="Emit", tr=tr,
+               simulate={"num": 1500 if quick else 20000, "seed": common.seed()}, depth=17,
+               what="simulated edge lists of <= 7 edges over 7 vertices")
+    if r.violated:
+        vd.violation({"kind": "tlc-law", "what": "ConnComp (simulation)", "violated": r.violated, "trace": r.trace[:200]})
+    lines += r.lines
+    cases = parse_hist_cases(lines, limit=(8000 if quick else 120000))
+    ctx = multiprocessing.get_context("fork")
+    with ctx.Pool(16) as pool:
+        for case, v in zip(cases, pool.imap(cc_both, cases, chunksize=64)):
+            stats["replay:" + v[0]] += 1
+            if v[0] != "ok":
+                vd.violation({"kind": "edges", "case": case, "verdict": v})
+    nontriv = sum(1 for c in cases if len(set(c["labels"])) < len(set(c["f"]) | set(c["g"])) and len(c["f"]) >= 2)
+    cov = {"states": tr.states, "transitions": tr.transitions, "traces_validated_against_impl": len(cases),
+           "samples": cases[-3:], "evaluations": len(cases) * (len(cc_vertex_maps()) + 1), "distinct_nontrivial": nontriv,
+           "rule": "edge lists enumerated / simulated by TLC with the reference labels; each replayed with 5 vertex types "
+                   "and through the Pandas co_equalizer expression; non-trivial = at least two edges and some merge happens",
+           "tlc_runs": tr.runs, "outcomes": dict(stats), "exhaustive": False}
+    common.write_evidence("C23", tier, "model_checking", cov, time.time() - t0, len(vd.violations),
+                          assumptions=["vertices are rendered order-preservingly as ints, negative ints, strings, floats and tuples"])
+    return vd.report()
+
+
+# =============================================================================================
+# C25 result cache
+# =============================================================================================
+def ec_pool():
+    """concrete data maps for the abstract pool of MC_EvalCache: 0 base; 1 copy of base (equal); 2 one value changed;
+    3 column renamed; 4 one row less; 5 rows reversed; 6 table renamed; 7 dtype int instead of float; 8 two tables"""
+    import pandas
+    base = pandas.DataFrame({"x": [1.0, 2.0, 3.0], "g": ["a", "b", "a"]})
+    pool = {
+        0: {"d": base},
+        1: {"d": base.copy()},
+        2: {"d": pandas.DataFrame({"x": [1.0, 2.5, 3.0], "g": ["a", "b", "a"]})},
+        3: {"d": base.rename(columns={"x": "x2"})},
+        4: {"d": base.iloc[:2].reset_index(drop=True)},
+        5: {"d": base.iloc[::-1].reset_index(drop=True)},
+        6: {"e": base.copy()},
+        7: {"d": pandas.DataFrame({"x": [1, 2, 3], "g": ["a", "b", "a"]})},
+        8: {"d": base.copy(), "e": base.copy()},
+    }
+    return pool
+
+
+def ec_replay_case(case):
+    import pandas
+    import data_algebra.eval_cache as ecm
+    import data_algebra.SQLite
+    import data_algebra.PostgreSQL
+    models = {"sqlite": data_algebra.SQLite.SQLiteModel(), "pg": data_algebra.PostgreSQL.PostgreSQLModel()}
+    results = {"r1": pandas.DataFrame({"z": [1.0, 2.0]}), "r2": pandas.DataFrame({"z": [5.0]})}
+    pool = ec_pool()
+    cache = ecm.ResultCache()
+    held = []
+    for i, e in enumerate(case["hist"]):
+        if e["op"] == "store":
+            fr = results[e["r"]].copy()
+            cache.store(db_model=models[e["d"]], sql=e["q"], data_map=pool[e["m"]], res=fr)
+            held.append(fr)
+        elif e["op"] == "get":
+            try:
+                got = cache.get(db_model=models[e["d"]], sql=e["q"], data_map=pool[e["m"]])
+                hit = True
+            except KeyError:
+                got, hit = None, False
+            if hit != e["hit"]:
+                return ("diverge", i, "hit=%s expected %s" % (hit, e["hit"]))
+            if hit:
+                if not got.equals(results[e["ret"]]):
+                    return ("diverge", i, "returned frame differs from the stored result %s" % e["ret"])
+                held.append(got)
+        elif e["op"] == "mutate":
+            j = e["r"] - 1
+            if j < len(held):
+                held[j].iloc[0, 0] = -99.0
+                held[j]["extra"] = 1
+    return ("ok",)
+
+
+def ec_key_injectivity():
+    """C25 last sentence, exhaustively over the pool: two pool members share a key iff they are equal data"""
+    import data_algebra.eval_cache as ecm
+    import data_algebra.SQLite
+    m = data_algebra.SQLite.SQLiteModel()
+    pool = ec_pool()
+    keys = {i: ecm.make_cache_key(db_model=m, sql="q", data_map=pool[i]) for i in pool}
+    bad = []
+    for i in pool:
+        for j in pool:
+            same = keys[i] == keys[j]
+            want = (i == j) or ({i, j} == {0, 1})
+            if same != want:
+                bad.append((i, j, same))
+    return bad
+
+
+def check_C25(tier, replay=None):
+    import multiprocessing
+    t0 = time.time()
+    vd = common.Verdicts("C25")
+    tr = TlcRun()
+    stats = collections.Counter()
+    quick = tier == "quick"
+    if replay:
+        rec = json.load(open(replay))
+        print(ec_replay_case(rec["case"]) if "case" in rec else rec)
+        return 1
+    consts = {"NONE": "= NONE", "Dialects": "<- MC_Dialects", "Sqls": "<- MC_Sqls", "Pool": "<- " + ("MC_PoolQ" if quick else "MC_Pool"),
+              "Class": "<- MC_Class", "Results": "<- MC_Results", "MaxOps": "= 3"}
+    r = run_sm("MC_EvalCache", consts, invariants=["HitOnlyIfStored", "ReturnsStored"], tr=tr,
+               what="all store/get/mutate histories of <= 3 calls: a hit iff an equal key was stored; returns the last stored")
+    if r.violated:
+        vd.violation({"kind": "tlc-law", "what": "EvalCache", "violated": r.violated, "trace": r.trace[:200]})
+    r = run_sm("MC_EvalCache", dict(consts, Pool="<- MC_Pool", MaxOps="= 6"), emit="Emit", tr=tr,
+               simulate={"num": 1500 if quick else 20000, "seed": common.seed()}, depth=7,
+               what="simulated histories of 6 calls over the near-duplicate pool")
+    cases = parse_hist_cases(r.lines, limit=(3000 if quick else 40000))
+    ctx = multiprocessing.get_context("fork")
+    with ctx.Pool(16) as pool:
+        for case, v in zip(cases, pool.imap(ec_replay_case, cases, chunksize=32)):
+            stats["replay:" + v[0]] += 1
+            if v[0] != "ok":
+                vd.violation({"kind": "history", "case": case, "verdict": v})
+    bad = ec_key_injectivity()
+    stats["key_pairs_checked"] = 81
+    for b in bad:
+        vd.violation({"kind": "key-injectivity", "pair": b})
+    nontriv = sum(1 for c in cases if any(e["op"] == "get" and e["hit"] for e in c["hist"]))
+    cov = {"states": tr.states, "transitions": tr.transitions, "traces_validated_against_impl": len(cases),
+           "samples": [[[e["op"], e["d"], e["q"], e["m"], e["r"], e["hit"]] for e in c["hist"]] for c in cases[:2]],
+           "evaluations": len(cases) + 81, "distinct_nontrivial": nontriv,
+           "rule": "histories of EvalCache.tla replayed on ResultCache with concrete frames; non-trivial = contains a lookup that hits; "
+                   "plus all 81 ordered pairs of the near-duplicate pool for key injectivity",
+           "tlc_runs": tr.runs, "outcomes": dict(stats)}
+    common.write_evidence("C25", tier, "model_checking", cov, time.time() - t0, len(vd.violations),
+                          assumptions=["pool of near-duplicate data maps: copy, one value, column name, shape, row order, table name, dtype, extra table"])
+    return vd.report()
+
+
+# =============================================================================================
+# C22 schema decorators
+# =============================================================================================
+def sc_value(v, frame_lib="pandas"):
+    import pandas
+    import polars
+    t = v[0]
+    if t == "int":
+        return int(v[1])
+    if t == "float":
+        return v[1] + 0.5
+    if t == "str":
+        return "s%d" % v[1]
+    if t == "bool":
+        return True
+    if t == "null":
+        return None
+    if t == "frame":
+        cols = {}
+        for name, cells in v[1]:
+            cols[name] = [sc_value(c) for c in cells]
+        if frame_lib == "polars":
+            return polars.DataFrame(cols, strict=False)
+        return pandas.DataFrame({k: pandas.Series(vals, dtype=object) for k, vals in cols.items()})
+    raise ValueError(v)
+
+
+def sc_type(t):
+    return {"int": int, "float": float, "str": str, "bool": bool}[t]
+
+
+def sc_spec(sp):
+    k = sp[0]
+    if k == "none":
+        return None
+    if k == "type":
+        return sc_type(sp[1])
+    if k == "types":
+        return {sc_type(t) for t in sp[1]}
+    if k == "ex":
+        return sc_value(sp[1])
+    if k == "exs":
+        return {sc_value(v) for v in sp[1]}
+    if k == "cols":
+        return {c[0]: sc_spec(c[1]) for c in sp[1:]}
+    raise ValueError(sp)
+
+
+def sc_polars_ok(call):
+    """polars frames cannot hold the mixed-type column of FD"""
+    def mixed(v):
+        return v[0] == "frame" and any(len({c[0] for c in cells if c[0] != "null"}) > 1 for _, cells in v[1])
+    return not (mixed(call["b"]) or mixed(call["r"]))
+
+
+def sc_replay_case(case):
+    import data_algebra.data_schema as dsm
+    sw = dsm.SchemaCheckSwitch()
+    sw.on()
+    try:
+        for i, e in enumerate(case["hist"]):
+            if e["op"] == "on":
+                sw.on()
+                continue
+            if e["op"] == "off":
+                sw.off()
+                continue
+            c = e["call"]
+            libs = ["pandas"] + (["polars"] if sc_polars_ok(c) else [])
+            for lib in libs:
+                arg_specs = {}
+                if c["aspec"] != "UNDECL":
+                    arg_specs["a"] = sc_spec(c["aspec"])
+                if c["bspec"] != "UNDECL":
+                    arg_specs["b"] = sc_spec(c["bspec"])
+                retval = sc_value(c["r"], lib)
+
+                @dsm.SchemaRaises(arg_specs, return_spec=sc_spec(c["rspec"]))
+                def f(a="default_a", b="default_b", _rv=retval):
+                    return _rv
+                args, kwargs = [], {}
+                if c["amode"] == "pos":
+                    args.append(sc_value(c["a"], lib))
+                elif c["amode"] == "kw":
+                    kwargs["a"] = sc_value(c["a"], lib)
+                if c["bmode"] == "pos":
+                    args.append(sc_value(c["b"], lib))
+                elif c["bmode"] == "kw":
+                    kwargs["b"] = sc_value(c["b"], lib)
+                try:
+                    got = f(*args, **kwargs)
+                    raised = False
+                except TypeError as ex:
+                    raised = True
+                    got = str(ex)[:200]
+                if raised != e["raises"]:
+                    return ("diverge", i, {"lib": lib, "raised": raised, "expected": e["raises"], "detail": str(got)[:200]})
+                if not raised and got is not retval:
+                    return ("diverge", i, {"lib": lib, "why": "return value is not the function's own result"})
+    finally:
+        sw.on()
+    return ("ok",)
+
+
+SC_CONST = {"NONE": "= NONE", "UNDECL": "= UNDECL", "ASpecs": "<- MC_ASpecs", "BSpecs": "<- MC_BSpecs", "RSpecs": "<- MC_RSpecs",
+            "AVals": "<- MC_AVals", "BVals": "<- MC_BVals", "RVals": "<- MC_RVals", "Dev": "<- NoDev"}
+
+
+def check_C22(tier, replay=None):
+    import multiprocessing
+    t0 = time.time()
+    vd = common.Verdicts("C22")
+    tr = TlcRun()
+    stats = collections.Counter()
+    quick = tier == "quick"
+    if replay:
+        rec = json.load(open(replay))
+        print(sc_replay_case(rec["case"]))
+        return 1
+    laws = ["OffNeverRaises", "ExampleDeclaresItsType"]
+    r = run_sm("MC_Schema", dict(SC_CONST, MaxOps="= 1", SampleK="= 0", EmitOneIn="= %d" % (40 if quick else 4)),
+               invariants=laws, emit="Emit", tr=tr,
+               what="every specification x call (193k): reference ShouldRaise; one in %d replayed" % (40 if quick else 4))
+    if r.violated:
+        vd.violation({"kind": "tlc-law", "what": "Schema", "violated": r.violated, "trace": r.trace[:200]})
+    lines = list(r.lines)
+    r = run_sm("MC_Schema", dict(SC_CONST, MaxOps="= 4", SampleK="= 4", EmitOneIn="= 1"), invariants=laws, emit="Emit", tr=tr,
+               simulate={"num": 1000 if quick else 12000, "seed": common.seed()}, depth=6,
+               what="simulated histories of switch flips and calls")
+    lines += r.lines
+    # the repaired defect D13 as a model-level check: the deviation must break agreement with the reference
+    cases = parse_hist_cases(lines, limit=(9000 if quick else 120000))
+    ctx = multiprocessing.get_context("fork")
+    with ctx.Pool(16) as pool:
+        for case, v in zip(cases, pool.imap(sc_replay_case, cases, chunksize=64)):
+            stats["replay:" + v[0]] += 1
+            if v[0] != "ok":
+                vd.violation({"kind": "history", "case": case, "verdict": v})
+    nontriv = sum(1 for c in cases if any(e["op"] == "call" and e["raises"] for e in c["hist"]))
+    cov = {"states": tr.states, "transitions": tr.transitions, "traces_validated_against_impl": len(cases),
+           "samples": [c["hist"] for c in cases[:2]], "evaluations": len(cases), "distinct_nontrivial": nontriv,
+           "rule": "calls enumerated by TLC over specification and value pools, with the expected raise/return; replayed on a freshly "
+                   "decorated function with Pandas and Polars frames; non-trivial = some call must raise",
+           "tlc_runs": tr.runs, "outcomes": dict(stats)}
+    common.write_evidence("C22", tier, "model_checking", cov, time.time() - t0, len(vd.violations),
+                          assumptions=["null scalar arguments are not generated (the property speaks of non-null values)",
+                                       "types int, float, str, bool with Python's bool <: int; frames with float/str/int/mixed/empty columns"])
+    return vd.report()
+
+
 CHECKS = {
     "C20": check_C20,
+    "C22": check_C22,
+    "C23": check_C23,
     "C24": check_C24,
+    "C25": check_C25,
 }
